@@ -8,6 +8,7 @@ import (
 	"math"
 	"math/big"
 	"strconv"
+	"unicode/utf8"
 
 	"github.com/ohler55/slip"
 	"golang.org/x/text/cases"
@@ -151,9 +152,12 @@ func (c *control) readDir() {
 		params []any
 	)
 	c.pos++ // move past ~
+	afterSep := true // at the ~ or just behind a comma: a parameter left out here is an omitted one
 	for c.pos < c.end {
 		b := c.str[c.pos]
 		c.pos++
+		omitted := afterSep
+		afterSep = b == ','
 		switch b {
 		case ':':
 			if colon {
@@ -169,8 +173,7 @@ func (c *control) readDir() {
 			if colon || at {
 				c.invalidDir(c.str, c.pos-1)
 			}
-			prev := c.str[c.pos-2]
-			if prev == '~' || prev == ',' {
+			if omitted { // (the character before may be a quoted ~ or , so it does not tell)
 				params = append(params, nil)
 			}
 		case '#':
@@ -181,8 +184,13 @@ func (c *control) readDir() {
 			c.checkParamSize(p)
 			params = append(params, p)
 		case '\'':
-			p := c.readParam()
-			params = append(params, slip.ReadCharacter(p))
+			// the parameter is the one character after the quote, whatever it is
+			r, size := utf8.DecodeRune(c.str[c.pos:c.end])
+			if size == 0 {
+				c.invalidDir(c.str, c.pos)
+			}
+			c.pos += size
+			params = append(params, slip.Character(r))
 		case '-', '0', '1', '2', '3', '4', '5', '6', '7', '8', '9':
 			c.pos--
 			p := c.readParam()
